@@ -14,8 +14,17 @@ import (
 func init() { Registry["C17"] = runC17 }
 
 // fieldPath resolves a value to the dotted path of errors.Error fields it was loaded from ("Source.Line").
+// errorFieldBind maps a parameter of a helper that writes part of the ErrorResponse to the path of the value it
+// receives (addErrorSource(writer, desc.Source): source -> "Source").
+var errorFieldBind = map[*ssa.Parameter]string{}
+
 func errorFieldPath(v ssa.Value) (string, bool) {
 	v = core.StripConv(v)
+	if prm, isP := v.(*ssa.Parameter); isP {
+		if b, ok := errorFieldBind[prm]; ok {
+			return b, true
+		}
+	}
 	u, ok := v.(*ssa.UnOp)
 	if !ok || u.Op != token.MUL {
 		return "", false
@@ -110,6 +119,8 @@ func (c *Ctx) c17ErrorCode() {
 	// pair each field code with the string that follows it
 	emitted := map[string]byte{}
 	codeSite := map[byte]ssa.CallInstruction{}
+	guardAt := map[byte]ssa.CallInstruction{} // where the field is decided in ErrorCode's own body (the helper call for grouped fields)
+	var curOuter ssa.CallInstruction
 	// a small helper of the package that writes one (code, text, NUL) field: AddByte(p), AddString(q), AddNullTerminate()
 	fieldHelper := func(h *ssa.Function) (codeIdx, valIdx int, ok bool) {
 		if h == nil || !c.P.InPkg(h, "wire") || len(h.Blocks) != 1 {
@@ -142,86 +153,128 @@ func (c *Ctx) c17ErrorCode() {
 		}
 		return codeIdx, valIdx, seq == "BS0" && codeIdx >= 0 && valIdx >= 0
 	}
-	for _, b := range ec.Blocks {
-		var cur byte
-		var curSite ssa.CallInstruction
-		for _, in := range b.Instrs {
-			ci, ok := in.(ssa.CallInstruction)
-			if !ok {
-				continue
-			}
-			if ci2, vi, isHelper := fieldHelper(core.StaticCallee(ci)); isHelper {
-				args := ci.Common().Args
-				if k, isK := core.ConstInt(args[ci2]); isK {
-					code := byte(k)
-					arg := args[vi]
-					path, okp := errorFieldPath(arg)
-					if !okp {
-						if call, isCall := arg.(*ssa.Call); isCall {
-							if f := core.StaticCallee(call); f != nil && f.Pkg != nil && f.Pkg.Pkg.Path() == "strconv" && (f.Name() == "Itoa" || f.Name() == "FormatInt") {
-								path, okp = errorFieldPath(call.Call.Args[0])
-							}
-						}
-					}
-					exp, known := errorFieldOracle[code]
-					key := "ErrorCode:field:" + string(rune(code))
-					if known && okp && path == exp {
-						R.OK("C17.R1", key, c.at(ci), "field '"+string(rune(code))+"' carries Error."+exp+" as text", "helper "+fkey(core.StaticCallee(ci))+" writes (code, text, NUL); operand is a load of "+path)
-						emitted[path] = code
-						codeSite[code] = ci
-					} else {
-						R.Fail("C17.R1", key, c.at(ci), "field '"+string(rune(code))+"' carries Error."+exp+" as text", "the text emitted under '"+string(rune(code))+"' is "+describePath(path, okp)+", expected Error."+exp)
-					}
-				}
-				continue
-			}
-			switch writerMethod(ci) {
-			case "AddByte":
-				if k, ok := core.ConstInt(ci.Common().Args[1]); ok {
-					cur, curSite = byte(k), ci
-				}
-			case "AddString":
-				if cur == 0 {
+	var scanFields func(fn *ssa.Function, depth int)
+	scanFields = func(fn *ssa.Function, depth int) {
+		for _, b := range fn.Blocks {
+			var cur byte
+			var curSite ssa.CallInstruction
+			for _, in := range b.Instrs {
+				ci, ok := in.(ssa.CallInstruction)
+				if !ok {
 					continue
 				}
-				arg := ci.Common().Args[1]
-				path, ok := errorFieldPath(arg)
-				text := true
-				if !ok {
-					// formatted number: strconv.Itoa(int(x)) / FormatInt(int64(x), 10)
-					if call, isCall := arg.(*ssa.Call); isCall {
-						f := core.StaticCallee(call)
-						if f != nil && f.Pkg != nil && f.Pkg.Pkg.Path() == "strconv" && (f.Name() == "Itoa" || f.Name() == "FormatInt") {
-							path, ok = errorFieldPath(call.Call.Args[0])
-							if f.Name() == "FormatInt" {
-								if base, isC := core.ConstInt(call.Call.Args[1]); !isC || base != 10 {
-									text = false
+				// a helper of the package that writes a group of fields of a value it is handed (the source location, say)
+				if h := core.StaticCallee(ci); depth > 0 && h != nil && h != fn && c.P.InPkg(h, "wire") && h.Blocks != nil && writerMethod(ci) == "" {
+					if _, _, isOne := fieldHelper(h); !isOne {
+						writes := false
+						for _, hi := range core.Calls(h) {
+							if writerMethod(hi) == "AddString" {
+								writes = true
+							}
+						}
+						bound := false
+						if writes {
+							for i, a := range ci.Common().Args {
+								if pth, okp := errorFieldPath(a); okp && i < len(h.Params) {
+									errorFieldBind[h.Params[i]] = pth
+									bound = true
+								}
+							}
+						}
+						if bound {
+							R.Analysed(fname(h))
+							saved := curOuter
+							if curOuter == nil {
+								curOuter = ci
+							}
+							scanFields(h, depth-1)
+							curOuter = saved
+							continue
+						}
+					}
+				}
+				if ci2, vi, isHelper := fieldHelper(core.StaticCallee(ci)); isHelper {
+					args := ci.Common().Args
+					if k, isK := core.ConstInt(args[ci2]); isK {
+						code := byte(k)
+						arg := args[vi]
+						path, okp := errorFieldPath(arg)
+						if !okp {
+							if call, isCall := arg.(*ssa.Call); isCall {
+								if f := core.StaticCallee(call); f != nil && f.Pkg != nil && f.Pkg.Pkg.Path() == "strconv" && (f.Name() == "Itoa" || f.Name() == "FormatInt") {
+									path, okp = errorFieldPath(call.Call.Args[0])
+								}
+							}
+						}
+						exp, known := errorFieldOracle[code]
+						key := "ErrorCode:field:" + string(rune(code))
+						if known && okp && path == exp {
+							R.OK("C17.R1", key, c.at(ci), "field '"+string(rune(code))+"' carries Error."+exp+" as text", "helper "+fkey(core.StaticCallee(ci))+" writes (code, text, NUL); operand is a load of "+path)
+							emitted[path] = code
+							codeSite[code] = ci
+							guardAt[code] = ci
+							if curOuter != nil {
+								guardAt[code] = curOuter
+							}
+						} else {
+							R.Fail("C17.R1", key, c.at(ci), "field '"+string(rune(code))+"' carries Error."+exp+" as text", "the text emitted under '"+string(rune(code))+"' is "+describePath(path, okp)+", expected Error."+exp)
+						}
+					}
+					continue
+				}
+				switch writerMethod(ci) {
+				case "AddByte":
+					if k, ok := core.ConstInt(ci.Common().Args[1]); ok {
+						cur, curSite = byte(k), ci
+					}
+				case "AddString":
+					if cur == 0 {
+						continue
+					}
+					arg := ci.Common().Args[1]
+					path, ok := errorFieldPath(arg)
+					text := true
+					if !ok {
+						// formatted number: strconv.Itoa(int(x)) / FormatInt(int64(x), 10)
+						if call, isCall := arg.(*ssa.Call); isCall {
+							f := core.StaticCallee(call)
+							if f != nil && f.Pkg != nil && f.Pkg.Pkg.Path() == "strconv" && (f.Name() == "Itoa" || f.Name() == "FormatInt") {
+								path, ok = errorFieldPath(call.Call.Args[0])
+								if f.Name() == "FormatInt" {
+									if base, isC := core.ConstInt(call.Call.Args[1]); !isC || base != 10 {
+										text = false
+									}
 								}
 							}
 						}
 					}
-				}
-				exp, known := errorFieldOracle[cur]
-				key := "ErrorCode:field:" + string(rune(cur))
-				switch {
-				case !known:
-					R.Fail("C17.R1", key, c.at(curSite), "field code is one the property maps to an Error field", "code '"+string(rune(cur))+"' is not in the mapping")
-				case !ok || path != exp || !text:
-					R.Fail("C17.R1", key, c.at(ci), "field '"+string(rune(cur))+"' carries Error."+exp+" as text", "the text emitted under '"+string(rune(cur))+"' is "+describePath(path, ok)+", expected Error."+exp)
-				default:
-					R.OK("C17.R1", key, c.at(ci), "field '"+string(rune(cur))+"' carries Error."+exp+" as text", "operand is a load of "+path)
-					emitted[path] = cur
-					codeSite[cur] = curSite
-				}
-				cur = 0
-			case "AddInt32", "AddInt16", "AddBytes":
-				if cur != 0 {
-					R.Fail("C17.R1", "ErrorCode:field:"+string(rune(cur))+":not-text", c.at(ci), "every ErrorResponse field is text", "field '"+string(rune(cur))+"' is written with "+writerMethod(ci))
+					exp, known := errorFieldOracle[cur]
+					key := "ErrorCode:field:" + string(rune(cur))
+					switch {
+					case !known:
+						R.Fail("C17.R1", key, c.at(curSite), "field code is one the property maps to an Error field", "code '"+string(rune(cur))+"' is not in the mapping")
+					case !ok || path != exp || !text:
+						R.Fail("C17.R1", key, c.at(ci), "field '"+string(rune(cur))+"' carries Error."+exp+" as text", "the text emitted under '"+string(rune(cur))+"' is "+describePath(path, ok)+", expected Error."+exp)
+					default:
+						R.OK("C17.R1", key, c.at(ci), "field '"+string(rune(cur))+"' carries Error."+exp+" as text", "operand is a load of "+path)
+						emitted[path] = cur
+						codeSite[cur] = curSite
+						guardAt[cur] = curSite
+						if curOuter != nil {
+							guardAt[cur] = curOuter
+						}
+					}
 					cur = 0
+				case "AddInt32", "AddInt16", "AddBytes":
+					if cur != 0 {
+						R.Fail("C17.R1", "ErrorCode:field:"+string(rune(cur))+":not-text", c.at(ci), "every ErrorResponse field is text", "field '"+string(rune(cur))+"' is written with "+writerMethod(ci))
+						cur = 0
+					}
 				}
 			}
 		}
 	}
+	scanFields(ec, 2)
 	for _, f := range want {
 		if _, ok := emitted[f]; !ok {
 			R.Fail("C17.R1", "ErrorCode:field-not-emitted:"+f, c.atFn(ec), "every field of errors.Error reaches the client", "Error."+f+" is never emitted by ErrorCode (the decoration is collected but not sent)")
@@ -238,9 +291,13 @@ func (c *Ctx) c17ErrorCode() {
 	}
 	for code, site := range codeSite {
 		field := errorFieldOracle[code]
+		at := guardAt[code]
+		if at == nil {
+			at = site
+		}
 		switch code {
 		case 'S', 'C', 'M':
-			R.Check(endCall != nil && site.Block().Dominates(endCall.Block()), "C17.R1", "ErrorCode:unconditional:"+string(rune(code)), c.at(site), "severity, SQLSTATE and message are always present", "its block dominates End", "field '"+string(rune(code))+"' is not emitted on every path")
+			R.Check(endCall != nil && at.Block().Dominates(endCall.Block()), "C17.R1", "ErrorCode:unconditional:"+string(rune(code)), c.at(site), "severity, SQLSTATE and message are always present", "its block dominates End", "field '"+string(rune(code))+"' is not emitted on every path")
 		default:
 			// guarded by own non-emptiness
 			top := strings.Split(field, ".")[0]
@@ -267,7 +324,7 @@ func (c *Ctx) c17ErrorCode() {
 						idx = 1
 					}
 					for _, u := range core.Referrers(cmp) {
-						if iff, ok := u.(*ssa.If); ok && core.EdgeDominates(iff.Block(), idx, site.Block()) {
+						if iff, ok := u.(*ssa.If); ok && core.EdgeDominates(iff.Block(), idx, at.Block()) {
 							guarded = true
 						}
 					}
